@@ -3,7 +3,8 @@
 Stages: proofs (Properties_C08.v) -> correspondence: generated documents x generated access sequences on real schema
 objects (schemathesis.openapi.from_dict) against Model_C08.run_views evaluated by vm_compute -> oracle search on the
 implementation (cached lookups vs lookups on a fresh schema object; override precedence; every operation Ok or Err;
-JSON vs YAML serialisation of the same document) -> replay of the listed findings.
+effective (name, location) keys incl. security-derived parameters for every access route against an own oracle on the
+raw document; JSON vs YAML serialisation of the same document) -> replay of the listed findings.
 """
 from __future__ import annotations
 
@@ -430,12 +431,100 @@ def gen_doc(rng, malform=None):
         doc["components"] = comps
     if rng.random() < 0.4:
         doc["security"] = sec_req()
+    if rng.random() < 0.3:
+        plant_security_clash(rng, doc)
     if malform is None:
         malform = rng.random() < 0.3
     if malform:
         for _ in range(rng.choice([1, 1, 2])):
             malform_doc(rng, doc)
     return doc
+
+
+def local_target(doc, node):
+    """Generator-side helper: the value behind a (chain of) local $ref, or None."""
+    for _ in range(10):
+        if not (isinstance(node, dict) and isinstance(node.get("$ref"), str)):
+            return node
+        cur = doc
+        try:
+            for part in node["$ref"][2:].split("/"):
+                cur = cur[part]
+        except Exception:  # noqa: BLE001
+            return None
+        node = cur
+    return None
+
+
+def plant_security_clash(rng, doc):
+    """Name clashes between security schemes and declared parameters: 1-3 apiKey schemes named after a parameter
+    declared at operation level / path level / both, in the SAME location, in ANOTHER location, or one of each;
+    activated by the document-level or the operation-level `security`, as a further requirement object or as a
+    further key of an existing one (several requirements in force at once)."""
+    v20 = "swagger" in doc
+    _, ops, _ = doc_keys(doc)
+    if not ops:
+        return
+    sec_locs = ["header", "query"] + ([] if v20 else ["cookie"])
+    if v20:
+        schemes = doc.setdefault("securityDefinitions", {})
+    else:
+        comps = doc.setdefault("components", {})
+        if not isinstance(comps, dict):
+            return
+        schemes = comps.setdefault("securitySchemes", {})
+    if not isinstance(schemes, dict):
+        return
+    for _ in range(rng.choice([1, 1, 2, 3])):
+        p, m = rng.choice(ops)
+        item = local_target(doc, doc["paths"][p])
+        if not isinstance(item, dict) or not isinstance(item.get(m), dict):
+            continue
+        op = item[m]
+        level = rng.choice(["operation", "operation", "path", "both"])
+        holders = {"operation": [op], "path": [item], "both": [op, item]}[level]
+        declared = []
+        for h in holders:
+            if isinstance(h.get("parameters"), list):
+                for q in h["parameters"]:
+                    q = local_target(doc, q)
+                    if isinstance(q, dict) and isinstance(q.get("name"), str) and q.get("in") in LOCS and q["name"][:1].isalpha():
+                        declared.append((q["name"], q["in"]))
+        if declared and rng.random() < 0.5:
+            name, loc = rng.choice(declared)
+        else:
+            name, loc = rng.choice(["token", "api_key", "X-A", "q", "id"]), rng.choice(LOCS)
+            for i, h in enumerate(holders):
+                q = {"name": name, "in": loc}
+                if loc == "path" or rng.random() < 0.5:
+                    q["required"] = True
+                sch = copy.deepcopy(SCHEMAS[i]) if level == "both" else {"type": "string", "minLength": 8}
+                if v20:
+                    q.update(sch)
+                else:
+                    q["schema"] = sch
+                if not isinstance(h.get("parameters"), list):
+                    h["parameters"] = []
+                h["parameters"].insert(rng.choice([0, len(h["parameters"])]), q)
+        other = [x for x in sec_locs if x != loc]
+        mode = rng.choice(["other", "other", "same", "both"])
+        if mode == "same" and loc not in sec_locs:
+            mode = "other"
+        slocs = {"other": [rng.choice(other)], "same": [loc], "both": ([loc] if loc in sec_locs else []) + [rng.choice(other)]}[mode]
+        keys = []
+        for sloc in slocs:
+            key = f"C{len(schemes)}"
+            schemes[key] = {"type": "apiKey", "name": name, "in": sloc}
+            keys.append(key)
+        holder = op if rng.random() < 0.5 else doc
+        reqs = holder.get("security")
+        if not isinstance(reqs, list):
+            reqs = holder["security"] = []
+        for key in keys:
+            if reqs and isinstance(reqs[-1], dict) and rng.random() < 0.4:
+                reqs[-1][key] = []
+            else:
+                reqs.append({key: []})
 
 
 def positions(doc):
@@ -700,6 +789,208 @@ def ok_or_err_failures(doc, it):
     return missing
 
 
+# ----------------------------------------------------------------------------------------
+# independent oracle for the effective parameter keys (name, location), security-derived ones included.
+# Computed here from the RAW document only (own $ref resolution), never through schemathesis.
+# ----------------------------------------------------------------------------------------
+KEY_LOCS = ("path", "header", "cookie", "query")
+
+
+class NotApplicable(Exception):
+    """The document is malformed at a place the oracle would have to interpret: the oracle makes no demand."""
+
+
+def o_resolve(doc, node):
+    hops = 0
+    while isinstance(node, dict) and "$ref" in node:
+        ref = node["$ref"]
+        if not isinstance(ref, str) or not ref.startswith("#/") or "%" in ref or hops > 20:
+            raise NotApplicable("reference")
+        cur = doc
+        for part in ref[2:].split("/"):
+            part = part.replace("~1", "/").replace("~0", "~")
+            if isinstance(cur, dict) and part in cur:
+                cur = cur[part]
+            elif isinstance(cur, list) and part.isdigit() and int(part) < len(cur):
+                cur = cur[int(part)]
+            else:
+                raise NotApplicable("dangling reference")
+        node = cur
+        hops += 1
+    return node
+
+
+def o_declared(doc, holder):
+    """(name, in) of the parameters declared by a path item / an operation, references resolved."""
+    if "parameters" not in holder:
+        return []
+    params = holder["parameters"]
+    if not isinstance(params, list):
+        raise NotApplicable("parameters")
+    out = []
+    for p in params:
+        p = o_resolve(doc, p)
+        if not isinstance(p, dict) or not isinstance(p.get("name"), str) or not isinstance(p.get("in"), str):
+            raise NotApplicable("parameter")
+        out.append((p["name"], p["in"]))
+    return out
+
+
+def o_security(doc, op):
+    """-> (required keys, tolerated keys) contributed by the security requirements in force for the operation."""
+    v20 = "swagger" in doc
+    if v20:
+        defs = doc.get("securityDefinitions", {})
+    else:
+        comps = doc.get("components", {})
+        if not isinstance(comps, dict):
+            raise NotApplicable("components")
+        defs = comps.get("securitySchemes", {})
+    if not isinstance(defs, dict) or "$ref" in defs:
+        raise NotApplicable("security schemes")
+    # an operation-level `security` replaces the document-level one (an empty array removes it)
+    reqs = op["security"] if "security" in op else doc.get("security", [])
+    if not isinstance(reqs, list) or not all(isinstance(r, dict) for r in reqs):
+        raise NotApplicable("security requirements")
+    wanted = {k for r in reqs for k in r}
+    required, tolerated = set(), set()
+    for key, d in defs.items():
+        if key not in wanted:
+            continue
+        if not v20:
+            d = o_resolve(doc, d)
+        if not isinstance(d, dict) or "$ref" in d or not isinstance(d.get("type"), str):
+            raise NotApplicable("security scheme")
+        if d["type"] == "apiKey":
+            if not isinstance(d.get("name"), str) or not isinstance(d.get("in"), str):
+                raise NotApplicable("apiKey scheme")
+            if d["in"] in ("header", "query") or (d["in"] == "cookie" and not v20):
+                required.add((d["name"], d["in"]))
+            elif d["in"] in KEY_LOCS:
+                tolerated.add((d["name"], d["in"]))  # not a legal apiKey location of this version: no demand either way
+        elif d["type"] == ("basic" if v20 else "http"):
+            required.add(("Authorization", "header"))
+    return required, tolerated
+
+
+def o_path_item(doc, path):
+    paths = doc.get("paths")
+    if not isinstance(paths, dict) or path not in paths:
+        raise NotApplicable("paths")
+    item = o_resolve(doc, paths[path])
+    if not isinstance(item, dict):
+        raise NotApplicable("path item")
+    return item
+
+
+def effective_keys_oracle(doc, path, method):
+    """What the operation has to be offered with, as keys (name, location) of the four non-body locations:
+    operation-level parameters, path-level parameters (overridden by (name, in), which leaves the key set alone),
+    and for every security requirement in force an apiKey parameter (name, in) / the Authorization header - a
+    security key that is already declared with the same (name, in) is served by the declared parameter."""
+    item = o_path_item(doc, path)
+    op = item.get(method)
+    if not isinstance(op, dict) or "$ref" in op:
+        raise NotApplicable("operation")
+    declared = o_declared(doc, op) + o_declared(doc, item)
+    required, tolerated = o_security(doc, op)
+    decl = [k for k in declared if k[1] in KEY_LOCS]
+    return {"declared": decl, "security": required, "expected": set(decl) | required, "tolerated": tolerated}
+
+
+def impl_keys(op):
+    out = []
+    for cont, loc in ((op.path_parameters, "path"), (op.headers, "header"), (op.cookies, "cookie"), (op.query, "query")):
+        for p in cont:
+            out.append((p.name, loc))
+    return out
+
+
+def keys_verdict(want, got):
+    """None when the operation is offered with its effective keys, else what is off."""
+    have = set(got)
+    missing = sorted(want["expected"] - have)
+    extra = sorted(have - want["expected"] - want["tolerated"])
+    dup = []
+    for k in sorted(want["security"]):
+        if k == ("Authorization", "header"):
+            continue
+        if got.count(k) != max(1, want["declared"].count(k)):
+            dup.append([list(k), got.count(k)])
+    if missing or extra or dup:
+        return {"missing": [list(k) for k in missing], "extra": [list(k) for k in extra], "wrong_multiplicity": dup,
+                "offered_with": [list(k) for k in got], "effective": sorted(list(k) for k in want["expected"])}
+    return None
+
+
+def effective_keys_failures(rng, doc):
+    """Every operation of the document, reached by iteration / path+method / operationId / reference on fresh schema
+    objects and then by all routes in a shuffled order on ONE schema object, must carry the oracle's keys.
+    -> (number of operation x route observations, failures [(operation, route, verdict)], not applicable count)."""
+    import schemathesis
+    from schemathesis.core.result import Ok
+
+    _, ops, ids = doc_keys(doc)
+    wants = {}
+    skipped = 0
+    for p, m in ops:
+        try:
+            wants[(p, m)] = effective_keys_oracle(doc, p, m)
+        except NotApplicable:
+            skipped += 1
+    if not wants:
+        return 0, [], skipped
+    fails, n_obs = [], 0
+
+    def judge(op, key, route):
+        nonlocal n_obs
+        if key not in wants:
+            return
+        try:
+            got = impl_keys(op)
+        except Exception:  # noqa: BLE001
+            return
+        n_obs += 1
+        v = keys_verdict(wants[key], got)
+        if v is not None:
+            fails.append((list(key), route, v))
+
+    def lookups(schema, plan, tag):
+        for route, (p, m) in plan:
+            try:
+                if route == "iteration":
+                    for r in schema.get_all_operations():
+                        if isinstance(r, Ok):
+                            judge(r.ok(), (r.ok().path, r.ok().method), tag + "iteration")
+                    continue
+                if route == "path+method":
+                    op = schema[p][m]
+                elif route == "operationId":
+                    item = o_path_item(doc, p)
+                    oid = item[m].get("operationId")
+                    if not isinstance(oid, str) or ids.count(oid) != 1:
+                        continue
+                    op = schema.get_operation_by_id(oid)
+                else:
+                    op = schema.get_operation_by_reference(f"#/paths/{esc_pointer(p)}/{m}")
+            except Exception:  # noqa: BLE001
+                continue  # not offered this way: the accounting oracle's business
+            if (op.path, op.method) == (p, m):
+                judge(op, (p, m), tag + route)
+
+    with warnings.catch_warnings():
+        warnings.simplefilter("ignore")
+        load = lambda: schemathesis.openapi.from_dict(copy.deepcopy(doc))  # noqa: E731
+        keys = list(wants)
+        lookups(load(), [("iteration", keys[0])], "fresh: ")
+        for route in ("path+method", "operationId", "reference"):
+            lookups(load(), [(route, k) for k in keys], "fresh: ")
+        plan = [(route, k) for k in keys for route in ("path+method", "operationId", "reference")] + [("iteration", keys[0])]
+        rng.shuffle(plan)
+        lookups(load(), plan, "shared instance: ")
+    return n_obs, fails, skipped
+
+
 YAML_PLAIN_KEY = __import__("re").compile(r"[A-Za-z0-9_.\-]+")
 DATE_LIKE = __import__("re").compile(r"\d{4}-\d{2}-\d{2}([Tt ][0-9:.+\-Zz]+)?")
 
@@ -782,6 +1073,92 @@ def witness_fails(w) -> bool:
     raise ValueError(kind)
 
 
+def clash_histogram(chk, doc):
+    for p, m in doc_keys(doc)[1]:
+        try:
+            w = effective_keys_oracle(doc, p, m)
+        except NotApplicable:
+            continue
+        for n, loc in w["security"]:
+            if (n, loc) == ("Authorization", "header"):
+                chk.count("security:http-authorization")
+                continue
+            same = (n, loc) in w["declared"]
+            other = any(dn == n and dl != loc for dn, dl in w["declared"])
+            chk.count("security:apiKey " + ("declared same name same location" if same else "not declared there")
+                      + (" + same name in another location" if other else ""))
+        if len(w["security"]) > 1:
+            chk.count("security:several requirements in force")
+
+
+def security_keys_stage(chk, rng, cases, n):
+    import schemathesis
+
+    picked, rest = [], []
+    for doc, _ in cases:
+        for p, m in doc_keys(doc)[1]:
+            try:
+                w = effective_keys_oracle(doc, p, m)
+                (picked if w["security"] else rest).append((doc, p, m))
+            except NotApplicable:
+                rest.append((doc, p, m))
+    rng.shuffle(picked)
+    rng.shuffle(rest)
+    sel = picked[: n * 3 // 4]
+    sel += rest[: n - len(sel)]
+    exprs, impls = [], []
+    with warnings.catch_warnings():
+        warnings.simplefilter("ignore")
+        for doc, p, m in sel:
+            v = version_of(doc)
+            acc = c_access(["get", p, m])
+            obs = "(Val true)"
+            try:
+                op = schemathesis.openapi.from_dict(copy.deepcopy(doc))[p][m]
+                names = []
+                for cont in (op.path_parameters, op.headers, op.cookies, op.query):
+                    try:
+                        names.append([q.name for q in cont])
+                    except Exception as e:  # noqa: BLE001
+                        names.append({"raises": exc_class(e)})
+                impl = {"keys": names}
+                try:
+                    conts = [clist([cjson(q.definition) for q in cont], "json") for cont in (op.path_parameters, op.headers, op.cookies, op.query)]
+                    obs = f"(observed_keys_present {v} d {cjson(op.definition.raw)} {' '.join(conts)})"
+                except Exception:  # noqa: BLE001
+                    pass
+            except Exception as e:  # noqa: BLE001
+                impl = {"raises": exc_class(e)}
+            impls.append(impl)
+            exprs.append(f"(let d := {cjson(doc)} in (fresh_keys {v} d {acc}, {obs}))")
+    vals = core.coq_eval(IMPORTS, exprs, shard=20) if exprs else []
+    agree = outside = present = 0
+    for (doc, p, m), impl, (mk, mo) in zip(sel, impls, vals):
+        inp = {"doc": doc, "accesses": [["get", p, m]]}
+        try:
+            if mk[0] == "Val":
+                model = {"keys": [[pjson(x) for x in c[1]] if c[0] == "Val" else {"raises": p_exc(c[1])} for c in mk[1]]}
+            else:
+                model = {"raises": p_exc(mk[1])}
+        except OutsideModel:
+            outside += 1
+            continue
+        impl = norm(impl)
+        ok = same_result(impl, model) if "raises" in model else ("keys" in impl and all(same_result(a, b) for a, b in zip(impl["keys"], model["keys"])))
+        if not ok:
+            chk.disagree("parameter names per container vs Model_C08.fresh_keys", inp, impl, model)
+        else:
+            agree += 1
+        if "keys" in impl and mo[0] == "Val":
+            if mo[1] is not True:
+                chk.disagree("C08_security_keys_present: its conclusion is false on the operation the implementation built "
+                             "(an active apiKey definition is not served by the container of its location)", inp, impl, "security_keys_present = true")
+            else:
+                present += 1
+    return {"operations": len(sel), "with_active_security": min(len(picked), n * 3 // 4), "agree": agree, "outside_model": outside,
+            "theorem_conclusion_true_on_implementation": present}
+
+
 # ----------------------------------------------------------------------------------------
 def run(chk: core.Check):
     quick = chk.tier == "quick"
@@ -792,6 +1169,8 @@ def run(chk: core.Check):
         "OperationCache + the three lookups",
         "correspondence harness harness/props/c08.py (encoders, Coq output parser, canonical views, generators, exception-class mapping)",
         "PyYAML (YAML oracle only; not modelled)",
+        "effective-keys oracle (effective_keys_oracle: own $ref resolution, operation + path level parameters, security requirements in force -> "
+        "(name, location) keys; written from the OpenAPI 2.0 / 3.0 rules, never calls schemathesis)",
     ]
     chk.assumptions = [
         "to_json_schema_recursive (converter.py, property C01) is a parameter conv of the model; the generators only emit schemas on which it is the identity",
@@ -806,7 +1185,9 @@ def run(chk: core.Check):
         "(8% duplicated), 30% with 1-2 malformed entries (null, 5, 'x', [], {}, [5], ['x'], ...) planted at path item / parameters / parameter / "
         "in / name / schema / requestBody / content / security positions; x access sequences of 2-8 lookups (iteration, by path+method in three "
         "casings, by operationId, by reference incl. junk references) focused on 1-2 operations; non-trivial = the document has an operation and "
-        "the sequence reaches a cached entry or an error; distinct by canonical JSON"
+        "the sequence reaches a cached entry or an error; distinct by canonical JSON; 30% of the documents (50% in the effective-keys search) get 1-3 "
+        "planted apiKey schemes named after a parameter declared at operation level / path level / both, in the same location, another location or "
+        "one of each, activated by the document-level or operation-level security, as a new requirement object or a further key of an existing one"
     )
     chk.proofs(["Common", "C08"])
     rng = chk.rng
@@ -881,6 +1262,11 @@ def run(chk: core.Check):
                 chk.disagree("iteration_completes = true but a documented operation is neither Ok nor Err", {"doc": doc, "accesses": [["iter"]]}, ok_or_err_failures(doc, it), None)
     chk.stages["region_predicates"] = {"cases": len(sub), "coherent": n_coh, "coherent_strict": n_strict, "iteration_completes": n_compl}
 
+    # ---- stage 2c: security-derived parameters.  (i) Model_C08.fresh_keys (names per container, order and duplicates kept)
+    #      against the real operation; (ii) the executable conclusion of C08_security_keys_present evaluated on what the
+    #      IMPLEMENTATION holds (its parameter definitions per container) with the active definitions the model derives
+    chk.stages["security_keys"] = security_keys_stage(chk, rng, cases, 120 if quick else 600)
+
     # ---- stage 3: oracle search on the implementation (testing; supports the tie, never replaces a theorem)
     mult = 10 if chk.broken else 1
     n_order = override_n = crash_n = 0
@@ -918,6 +1304,30 @@ def run(chk: core.Check):
                      {"doc": doc, "accesses": accs}, {"sequence": a, "fresh": b}, region=order_region(doc, accs, a, b))
     chk.stages["search_order_precedence_accounting"] = {
         "sequences_vs_fresh": n_order, "order_dependent": order_diff, "override_hits": override_n, "documents_with_unaccounted_operations": crash_n}
+
+    # (f) effective parameter keys incl. security-derived ones: own oracle on the raw document vs the real operation,
+    #     for every operation and every access route (fresh objects and one shared object)
+    n_obs = n_keyfail = n_na = n_docs = 0
+    extra_docs = []
+    for _ in range((150 if quick else 1000) * mult):
+        d = gen_doc(rng, malform=rng.random() < 0.15)
+        if rng.random() < 0.5:
+            plant_security_clash(rng, d)
+        extra_docs.append(d)
+        chk.seen({"doc": d, "stage": "effective-keys"}, count_ops(d) > 0)
+    for doc in [d for d, _ in cases] + extra_docs:
+        n_docs += 1
+        clash_histogram(chk, doc)
+        obs, fails, na = effective_keys_failures(rng, doc)
+        n_obs += obs
+        n_na += na
+        for operation, route, verdict in fails[:1]:
+            n_keyfail += 1
+            verdict["routes_failing_for_this_document"] = sorted({r for _, r, _ in fails})
+            chk.fail("an operation is offered with other parameters than its effective ones (declared + security-derived, by (name, location))",
+                     {"kind": "effective_keys", "doc": doc, "operation": operation, "route": route}, verdict, region=None)
+    chk.stages["search_effective_keys"] = {"documents": n_docs, "operation_x_route_observations": n_obs,
+                                           "operations_outside_the_oracle": n_na, "documents_failing": n_keyfail}
 
     # (d) JSON vs YAML serialisation of the same document
     import schemathesis
@@ -968,6 +1378,15 @@ def replay(payload) -> int:
             for oid, expect, got, distinct in two_file_eval(inp["root"], inp["shared"], inp["owners"], inp["operations"], inp["order"]):
                 if oid == inp["operation"]:
                     print("  expected:", expect, "\n  got     :", got, "\n  different objects:", distinct)
+        elif inp.get("kind") == "effective_keys":
+            import random
+
+            obs, fails, _ = effective_keys_failures(random.Random(0), inp["doc"])
+            print("  operation", inp["operation"], "route", inp["route"])
+            for operation, route, verdict in fails[:4]:
+                print("   ", operation, route, "missing:", verdict["missing"], "extra:", verdict["extra"], "offered with:", verdict["offered_with"])
+            if not fails:
+                print("   no longer failing (%d observations)" % obs)
         elif "doc" in inp:
             print("  override:", override_failures(inp["doc"])[:2])
             it = norm(impl_run(inp["doc"], [["iter"]]))[0]
